@@ -647,4 +647,25 @@ theorem allAtts_nextAfterCert (hs : GSpec P good G) (hset : ∀ r p vw, G r p vw
     (pairwise_and_both (A := fun y : Snap => ∀ b ∈ y.2, CommFact y.1 b) _
       (snaps_comm hs hset hg es σ hI hr hra hfit hpf) hcs)
 
+/-! ### the values read for soft / next / down votes -/
+
+theorem snaps_val (hs : GSpec P good G) (hset : ∀ r p vw, G r p vw → vw.staging ≠ 0 → vw.set = true)
+    (hg : GoodSpec good) : ∀ (es : List Player.Event) (σ : State), SInv P good G σ → RunOK P good σ es → RunOKA P σ es →
+    NoOverflow (snaps P σ es) → ∀ y ∈ snaps P σ es, ∀ b ∈ y.2, ValFact y.1 b := by
+  intro es
+  induction es with
+  | nil => intro σ _ _ _ _ y hy; cases hy
+  | cons e rest ih =>
+    intro σ hI hr hra hno y hy
+    simp only [snaps] at hy hno
+    split at hy
+    · cases hy
+    rename_i σ' as hh
+    rw [hh] at hno
+    simp only [] at hno
+    obtain ⟨hI', hst⟩ := sinv_step hs hset hg hI hr.1 hra.1 hh
+    rcases List.mem_cons.mp hy with rfl | hy
+    · exact hst.val (hno _ List.mem_cons_self)
+    · exact ih σ' hI' (hr.2 _ _ hh) (hra.2 _ _ hh) (fun x hx => hno x (List.mem_cons_of_mem _ hx)) y hy
+
 end AlgoVerif.Lemmas.PlayerAttest
